@@ -7,6 +7,14 @@ WT=/tmp/wt/$ID; OUT=/tmp/wt/$ID-out
 export GOFLAGS=-mod=mod GOPROXY=off GOSUMDB=off GOTOOLCHAIN=local
 set -u
 log() { echo "[seed $ID] $*"; }
+# recreate the scratch worktree / deliverables from /verif/seeded/<ID> when they are gone
+CREATED=0
+if [ ! -d $WT ]; then mkdir -p /tmp/wt; git -C /repo worktree add -q --detach $WT HEAD || exit 3; CREATED=1; fi
+if [ ! -f $OUT/patch.diff ] && [ -f /verif/seeded/$ID/patch.diff ]; then
+  mkdir -p $OUT; cp /verif/seeded/$ID/patch.diff /verif/seeded/$ID/DEMO_DIR.txt $OUT/; cp /verif/seeded/$ID/demo_test.go.txt $OUT/demo_test.go
+fi
+cleanup() { if [ $CREATED = 1 ]; then git -C /repo worktree remove --force $WT 2>/dev/null; git -C /repo worktree prune; [ "${KEEP_OUT:-0}" = 1 ] || rm -rf $OUT; fi; }
+trap cleanup EXIT
 [ -f $OUT/patch.diff ] || { log "no patch"; exit 3; }
 DEMODIR=$(grep -oE '(test|tokenizers|calculator|csv|io|mustache|variants)[A-Za-z0-9_/]*' $OUT/DEMO_DIR.txt | head -1)
 cd $WT || exit 3
